@@ -489,6 +489,9 @@ def run(loader, R, tier):
                     % (key, ", ".join(short(x) for x in Xs[:4]), member))
     R.floor("handlers of string-valued printers", nh, 150)
 
+    # ---------------------------------------------------------------- R44.9
+    stringbox_typestate(prog, R)
+
     # ---------------------------------------------------------------- totality
     unsupported = {}
     for v in ALL_PRINTERS:
@@ -504,6 +507,170 @@ def run(loader, R, tier):
                 un.append(short(X))
         unsupported[short(v)] = un
     R.info["unsupported_classes_per_printer"] = unsupported
+
+
+SB = "SymEngine::StringBox"
+# classes whose child container cannot be empty: the loop that fills a box
+# from it runs at least once.  Each entry is re-validated against the class's
+# is_canonical (it must test the size of its argument).
+NONEMPTY = {"SymEngine::FiniteSet": "get_container"}
+# (function, box): the adder is reached only under a counter that counts the
+# fills of that box
+COUNT_GUARDED = {("UnicodePrinter::bvisit", "Mul", "box2"):
+                 "enclose_parens() runs under `den > 1`; den is incremented "
+                 "exactly where box2 receives a factor"}
+
+
+def stringbox_typestate(prog, R):
+    """R44.9: a default-constructed StringBox has no lines; the bracket
+    adders index lines_[0] / lines_.back().  A box that may still have no
+    lines must not reach an adder that does not first give it one."""
+    R.rule("R44.9", "a StringBox that may have no lines never reaches a "
+                    "bracket adder that indexes the first/last line "
+                    "unguarded")
+    methods = {f["n"]: f for u in prog.by_class.get(SB, ())
+               for f in [prog.functions[u]] if f.get("body")}
+    if len(methods) < 10:
+        raise AnalysisBroken("StringBox methods not found")
+
+    def indexes(f):
+        for n in walk(f["body"]):
+            if n.get("k") == "op" and n.get("op") == "[]" and n.get("a") \
+                    and n["a"][0].get("k") == "mem" \
+                    and n["a"][0].get("m") == "lines_" \
+                    and any(y.get("k") == "lit" for y in walk(n["a"][1])) \
+                    and not any(y.get("k") == "ref" for y in walk(n["a"][1])):
+                return True     # a fixed line, not a bounded loop index
+            if n.get("k") == "mcall" and n.get("n") in ("back", "front") \
+                    and (n.get("o") or {}).get("k") == "mem" \
+                    and n["o"].get("m") == "lines_":
+                return True
+        return False
+
+    def ensures_line(f):
+        # leading `if (lines_.empty()) { lines_.push_back(...) }`
+        for st in f["body"].get("s", ())[:2]:
+            if st.get("k") == "if" and "lines_" in show(st.get("c")) \
+                    and ("empty" in show(st["c"]) or "size" in show(st["c"])):
+                if any(n.get("k") == "mcall" and n.get("n") in (
+                        "push_back", "emplace_back", "resize")
+                        for n in walk(st.get("t") or {})) or any(
+                        n.get("k") == "return"
+                        for n in walk(st.get("t") or {})):
+                    return True
+        return False
+    unsafe = {n for n, f in methods.items()
+              if indexes(f) and not ensures_line(f)}
+    changed = True
+    while changed:
+        changed = False
+        for n, f in methods.items():
+            if n in unsafe or ensures_line(f):
+                continue
+            for c in walk(f["body"]):
+                if c.get("k") == "mcall" and (c.get("o") or {}).get("k") \
+                        == "this" and c.get("n") in unsafe:
+                    unsafe.add(n)
+                    changed = True
+                    break
+    R.info["stringbox_methods_needing_a_line"] = sorted(unsafe)
+    if not unsafe:
+        raise AnalysisBroken("no StringBox method indexes lines_ any more: "
+                             "R44.9 has nothing to protect")
+    for cls, getter in NONEMPTY.items():
+        ok = False
+        for f in prog.fn_by_qn(cls + "::is_canonical"):
+            if any(n.get("k") == "mcall" and n.get("n") in ("size", "empty")
+                   for n in walk(f["body"])):
+                ok = True
+        if not ok:
+            raise AnalysisBroken("%s::is_canonical no longer rejects an "
+                                 "empty container" % cls)
+        R.exception(short(cls), "R44.9: a loop over %s() runs at least once "
+                    "(is_canonical rejects an empty container)" % getter)
+
+    nloc = 0
+    for u, f in sorted(prog.functions.items(), key=lambda kv: kv[1]["qn"]):
+        if not f.get("body") or f.get("dependent"):
+            continue
+        if not prog.derives(f.get("cls") or "", "SymEngine::UnicodePrinter"):
+            continue
+        X = strip_type(f["params"][0]["t"]) if f.get("params") else ""
+
+        def scan(stmts, state, nested):
+            # state: {local: True if it may have no lines}
+            for st in stmts:
+                k = st.get("k")
+                if k == "decl":
+                    for v in st.get("v", ()):
+                        if strip_type(v.get("t", "")) == SB:
+                            i = v.get("i")
+                            state[v["n"]] = i is None or (
+                                i.get("k") == "ctor" and not [
+                                    a for a in i.get("a", ())
+                                    if a.get("k") != "defarg"])
+                            if state[v["n"]]:
+                                nonlocal_count[0] += 1
+                    continue
+                if k == "{}":
+                    scan(st.get("s", ()), state, nested)
+                    continue
+                if k in ("if", "for", "forr", "while", "do", "switch"):
+                    runs_once = False
+                    if k == "forr" and NONEMPTY.get(X) and NONEMPTY[X] in \
+                            show(st.get("r") or {}):
+                        runs_once = True
+                    if k == "do" or (k == "while" and (st.get("c") or {}).get(
+                            "k") == "lit" and str(st["c"].get("v")).lower()
+                            in ("true", "1")):
+                        runs_once = True    # body entered unconditionally
+                    sub = dict(state)
+                    for part in ("t", "e", "b"):
+                        b = st.get(part)
+                        if b:
+                            scan(b.get("s", [b]) if b.get("k") == "{}"
+                                 else [b], sub, not runs_once)
+                    if runs_once:
+                        state.update(sub)
+                    continue
+                for n in walk(st):
+                    if n.get("k") == "mcall" and (n.get("o") or {}).get(
+                            "k") == "ref" and n["o"].get("n") in state:
+                        v = n["o"]["n"]
+                        if state[v] and n.get("n") in unsafe and (
+                                short(f["qn"]), short(X), v) in COUNT_GUARDED:
+                            R.exception("%s(%s):%s" % (short(f["qn"]),
+                                                       short(X), v),
+                                        "R44.9: " + COUNT_GUARDED[(
+                                            short(f["qn"]), short(X), v)])
+                        elif state[v] and n.get("n") in unsafe:
+                            R.violation(
+                                "R44.9", "%s(%s)" % (short(f["qn"]),
+                                                     short(X)),
+                                prog.loc(f, n.get("l")),
+                                "%s calls %s() on the box `%s`, which is "
+                                "default-constructed and filled only "
+                                "conditionally or in a loop that may not "
+                                "run: with no lines the adder indexes "
+                                "lines_[0] of an empty vector" % (
+                                    short(f["qn"]), n["n"], v))
+                        elif state[v] and not nested and n.get("n") in (
+                                "add_right", "add_below", "add_power",
+                                "add_below_unicode_line"):
+                            # unconditional fill from another box
+                            state[v] = False
+                    if n.get("k") in ("op", "bin") and n.get("op") == "=" \
+                            and n.get("a") and n["a"][0].get("k") == "ref" \
+                            and n["a"][0].get("n") in state and not nested:
+                        state[n["a"][0]["n"]] = False
+        nonlocal_count = [0]
+        scan(f["body"].get("s", ()), {}, False)
+        if nonlocal_count[0]:
+            nloc += nonlocal_count[0]
+            R.instance("R44.9", "%s(%s)" % (short(f["qn"]), short(X)),
+                       sample={"function": short(f["qn"]),
+                               "default_boxes": nonlocal_count[0]})
+    R.floor("default-constructed StringBox locals tracked", nloc, 4)
 
 
 MANIFEST = dict(
